@@ -1,49 +1,84 @@
 (** C11 — Handover: the successor listens before the predecessor stops.
     Only statements here; proofs are in Proofs/HandoverProofs.v.  The transition system (Model/Handover.v)
-    is a chain of any number of instances on [n] ports and one control-socket path; every instance embeds
-    C10's machine ([repaired]) for its shutdown manager, accept loops and connection tasks.  [hrepaired] is
-    the code after the fix (listeners bound by [execute] before the accept tasks are spawned and before the
-    predecessor is contacted), [htoday] kvarn 0.6.3 as found (bound inside the spawned accept tasks).
-    A new instance is started by the environment only when the newest one is up ([execute] returned, control
-    socket bound).  All schedules, any number of ports, any number of successive handovers. *)
+    is a chain of any number of instances on [n] listening sockets and one control-socket path; every instance
+    embeds C10's machine ([repaired]) for its shutdown manager, accept loops and connection tasks, and runs the
+    request loop of [handle_connection] on every connection (keep-alive).
+    [hrepaired] is the code after the two fixes (listeners bound and put into listening state by [execute] before
+    the accept tasks are spawned and before the predecessor is contacted; the control socket bound by [start_at]
+    before [execute] returns), [hbound] the code after the first fix only, [htoday] kvarn 0.6.3 as found.
+    A new instance is started by the environment only when the newest one's [execute] has returned.
+    All schedules, any number of sockets, any number of successive handovers. *)
 From KV Require Import Bytes Shutdown ShutdownProofs Handover HandoverProofs.
 Open Scope nat_scope.
 
-(** No gap: in every reachable state every port is bound and listening in some instance. *)
+(** No gap: in every reachable state every socket's port is bound and listening in some instance. *)
 Theorem always_bound : forall (n : nat) (s : hstate) (j : nat),
   hreachable hrepaired n s -> j < n -> port_served s j = true.
 Proof. exact HandoverProofs.always_bound. Qed.
 
-(** A listener of an instance is closed only when the next instance exists and has bound every port. *)
+(** "The successor binds before the predecessor is told to shut down": while the handover message is on an instance's
+    control socket, and ever after its shutdown plugin has been entered, the next instance exists and has every socket
+    bound and in listening state. *)
+Theorem told_after_bound : forall (n : nat) (s : hstate) (i : nat) (x : inst),
+  hreachable hrepaired n s -> nth_error (insts s) i = Some x -> (i_msg x || i_recv x) = true ->
+  exists y, nth_error (insts s) (S i) = Some y /\ all_bnd n y.
+Proof. exact HandoverProofs.told_after_bound. Qed.
+
+(** A listener of an instance is closed only when the next instance exists and has every socket bound and listening. *)
 Theorem successor_binds_first : forall (n : nat) (s : hstate) (i : nat) (x : inst) (j : nat),
   hreachable hrepaired n s -> nth_error (insts s) i = Some x -> closed x j ->
   exists y, nth_error (insts s) (S i) = Some y /\ all_bnd n y.
 Proof. exact HandoverProofs.successor_binds_first. Qed.
 
 (** Every instance: when its shutdown-complete signal has been sent ([wait()] resolves), no accept loop holds an
-    accepted stream, no connection task is still to run or running, and no listener is bound (C10's
-    [finished_after_all] and [finished_listeners_closed] applied to the embedded machine). *)
+    accepted stream, no connection task is still to run or running (its request loop has ended), and no listener is bound
+    (C10's [finished_after_all] and [finished_listeners_closed] applied to the embedded machine). *)
 Theorem handover_drains : forall (n : nat) (s : hstate) (i : nat) (x : inst),
   hreachable hrepaired n s -> nth_error (insts s) i = Some x -> finished (i_sd x) = true ->
   all_done (i_sd x) = true /\ forallb (fun l => negb (l_bound l)) (ls (i_sd x)) = true.
 Proof. exact HandoverProofs.handover_drains_safe. Qed.
 
+(** Keep-alive: a connection task reads at most ONE request after the shutdown flag of its instance has been set (the one
+    that arrives while it waits, or none if a request is in flight): the re-check after every answer closes the connection. *)
+Theorem keepalive_one_more : forall (n : nat) (s : hstate) (i : nat) (x : inst) (c : nat),
+  hreachable hrepaired n s -> nth_error (insts s) i = Some x -> k_after (kget c (i_ka x)) <= 1.
+Proof. exact HandoverProofs.keepalive_one_more. Qed.
+
 (** ... and the predecessor's [wait()] does resolve: in every reachable state in which no thread of any instance
     can move, an instance that received the handover message has sent its signal, closed every listener, ended
-    every connection task and resolved its waiter (C10's [no_hang]). *)
+    every connection task (also the kept-alive ones) and resolved its waiter (C10's [no_hang]) — and every later call
+    of [wait()] has resolved too. *)
 Theorem handover_no_hang : forall (n : nat) (s : hstate) (i : nat) (x : inst),
   hreachable hrepaired n s -> nth_error (insts s) i = Some x -> i_recv x = true -> hquiescent hrepaired s ->
-  completed (i_sd x) = true.
+  completed (i_sd x) = true /\ forallb (fun w => w) (i_lw x) = true.
 Proof. exact HandoverProofs.handover_no_hang. Qed.
 
+(** A [wait()] polled after the shutdown-complete signal resolves at that poll, whenever it was called (before, during or
+    after the drain): the receiver it clones has never marked a value as seen. *)
+Theorem late_wait_resolves : forall (v : hvariant) (s : hstate) (i : nat) (x : inst) (w : nat),
+  nth_error (insts s) i = Some x -> finished (i_sd x) = true -> nth_error (i_lw x) w = Some false ->
+  exists s', hstep v s (HWaitPoll i w) = Some s' /\
+             exists x', nth_error (insts s') i = Some x' /\ nth_error (i_lw x') w = Some true.
+Proof. exact HandoverProofs.late_wait_resolves. Qed.
+
 (** The control-socket path is answered by the newest instance, or by its predecessor only while the newest
-    is still inside [execute]: once the successor is running nobody else answers.
-    (Not proved, checked by the run only: that the successor's socket file stays at the path afterwards.) *)
+    is still inside [execute]: once the successor is running nobody else answers. *)
 Theorem ctl_successor_only : forall (n : nat) (s : hstate) (i : nat),
   hreachable hrepaired n s -> serves s i = true ->
   S i = length (insts s) \/
   (S (S i) = length (insts s) /\ exists y, nth_error (insts s) (S i) = Some y /\ i_pc y <> PRunning).
 Proof. exact HandoverProofs.ctl_successor_only. Qed.
+
+(** ... and the successor DOES answer: whenever no thread can move, a connect to the path reaches the newest instance. *)
+Theorem ctl_successor_answers : forall (n : nat) (s : hstate),
+  hreachable hrepaired n s -> hquiescent hrepaired s -> serves s (pred (length (insts s))) = true.
+Proof. exact HandoverProofs.ctl_successor_answers. Qed.
+
+(** ... and keeps answering: no step of any thread of any instance takes the path away from the newest instance (only a
+    next handover does: the step after which it is no longer the newest is the operator's). *)
+Theorem path_stable : forall (n : nat) (s : hstate) (k : nat) (lb : hlabel) (s' : hstate),
+  hreachable hrepaired n s -> serves s k = true -> S k = length (insts s) -> hstep hrepaired s lb = Some s' -> serves s' k = true.
+Proof. exact HandoverProofs.path_stable. Qed.
 
 (** All clauses in every reachable state of a chain of any length (the induction over the handovers is the
     inductive invariant [hinv] over the run). *)
@@ -51,28 +86,46 @@ Theorem chain : forall (n : nat) (s : hstate),
   hreachable hrepaired n s ->
   (forall j, j < n -> port_served s j = true) /\
   (forall i x, nth_error (insts s) i = Some x ->
+     ((i_msg x || i_recv x) = true -> exists y, nth_error (insts s) (S i) = Some y /\ all_bnd n y) /\
      (forall j, closed x j -> exists y, nth_error (insts s) (S i) = Some y /\ all_bnd n y) /\
      (finished (i_sd x) = true -> all_done (i_sd x) = true /\ forallb (fun l => negb (l_bound l)) (ls (i_sd x)) = true) /\
-     (i_recv x = true -> hquiescent hrepaired s -> completed (i_sd x) = true)) /\
+     (forall c, k_after (kget c (i_ka x)) <= 1) /\
+     (i_recv x = true -> hquiescent hrepaired s -> completed (i_sd x) = true /\ forallb (fun w => w) (i_lw x) = true)) /\
   (forall i, serves s i = true ->
      S i = length (insts s) \/
-     (S (S i) = length (insts s) /\ exists y, nth_error (insts s) (S i) = Some y /\ i_pc y <> PRunning)).
+     (S (S i) = length (insts s) /\ exists y, nth_error (insts s) (S i) = Some y /\ i_pc y <> PRunning)) /\
+  (hquiescent hrepaired s -> serves s (pred (length (insts s))) = true) /\
+  (forall k lb s', serves s k = true -> S k = length (insts s) -> hstep hrepaired s lb = Some s' -> serves s' k = true).
 Proof. exact HandoverProofs.chain. Qed.
 
-(** kvarn 0.6.3 as found: a schedule (replayed on the real code with a delay at the bind point) after which port 0
+(** kvarn 0.6.3 as found: a schedule (replayed on the real code with a delay at the bind point) after which socket 0
     is bound by nobody: the predecessor has closed its listener, the successor's accept task has not bound yet. *)
 Theorem always_bound_today_refuted :
   exists s, hreachable htoday 1 s /\ port_served s 0 = false /\
-            exists x y, nth_error (insts s) 0 = Some x /\ closed x 0 /\ nth_error (insts s) 1 = Some y /\ nth 0 (i_bnd y) false = false.
+            exists x y, nth_error (insts s) 0 = Some x /\ closed x 0 /\ nth_error (insts s) 1 = Some y /\ nth 0 (i_bnd y) BNone = BNone.
 Proof. exact HandoverProofs.always_bound_today_refuted. Qed.
 
+(** After the first repair only ([start_at] binds the path in its spawned task): an instance started when its predecessor's
+    [execute] has just returned finds no control socket; a state in which nothing can move, two instances listen on the port,
+    the control socket is answered by the OLDER of the two, which has never been told to shut down (replayed on the real code:
+    the successor is started while the predecessor's main task keeps its thread busy for 50 ms after [execute]). *)
+Theorem eager_start_refuted :
+  exists s, hreachable hbound 1 s /\ hquiescentb hbound s = true /\ length (insts s) = 3 /\
+            serves s 1 = true /\ serves s 2 = false /\
+            exists x y, nth_error (insts s) 1 = Some x /\ nth_error (insts s) 2 = Some y /\
+                        listening x 0 = true /\ listening y 0 = true /\ i_pc x = PRunning /\ i_pc y = PRunning /\
+                        i_msg x = false /\ i_recv x = false /\ finished (i_sd x) = false.
+Proof. exact HandoverProofs.eager_start_refuted. Qed.
+
 (** Non-vacuity. *)
-(** three successive handovers on two ports with two connections in flight across every switch, run to rest:
-    four instances, every port served throughout, the three predecessors completed, the newest answers at the path *)
+(** three successive handovers on two sockets with two connections in flight across every switch, run to rest, then one more
+    wait() on every predecessor: four instances, every socket served throughout, the three predecessors completed (also the late
+    waiters), the newest answers at the path *)
 Example ex_chain_of_three :
-  let '(s, ok) := scenario hrepaired 4000 3 2 2 0 (hinit 2) true in
+  let '(s0, ok) := scenario hrepaired 4000 3 2 2 0 (hinit 2) true in
+  let s := late_wait hrepaired 4000 s0 in
   ok = true /\ length (insts s) = 4 /\ who_serves s = 4 /\ hquiescentb hrepaired s = true /\
-  forallb (fun x => completed (i_sd x) && i_recv x) (removelast (insts s)) = true /\
+  forallb (fun x => completed (i_sd x) && i_recv x && late_done x) (removelast (insts s)) = true /\
   forallb (fun x => Nat.eqb (length (cs (i_sd x))) 2) (removelast (insts s)) = true.
 Proof. vm_compute. repeat split. Qed.
 (** a reachable state in which the predecessor has closed a listener (hypothesis of [successor_binds_first]) and
@@ -84,3 +137,35 @@ Example ex_closed_and_finished :
   | None => False
   end.
 Proof. vm_compute. split; [reflexivity|]. split; [eexists; split; reflexivity|reflexivity]. Qed.
+(** keep-alive across the handover: a connection is accepted by instance 0 and answers one request; the successor starts and tells
+    instance 0 to shut down (flag set); the client sends one more request on the same connection — it is read ([k_after] = 1) and
+    answered, then the re-check ends the loop ([KExit]): a further request is not enabled, the task ends, everything drains. *)
+Definition sched_keepalive : list hlabel :=
+  [HSd 0 (EConn 0); HSd 0 (LTake 0); HSd 0 (LStep 0); HSd 0 (LStep 0);      (* accepted, counted, task spawned *)
+   HReq 0 0; HResp 0 0;                                                      (* request 1 answered; flag not set: keep waiting *)
+   HStart; HMain 1; HMain 1; HMain 1; HRecv 0; HSd 0 (SStep 0);              (* successor bound, listening, message, flag set *)
+   HReq 0 0; HResp 0 0].                                                     (* request 2: read after the flag, answered, loop left *)
+Example ex_keepalive :
+  match hrun hrepaired (hinit 1) sched_keepalive with
+  | Some s =>
+      match nth_error (insts s) 0 with
+      | Some x => kget 0 (i_ka x) = {| k_st := KExit; k_after := 1 |} /\ hstep hrepaired s (HReq 0 0) = None /\
+                  (let '(s1, ok) := hdrain hrepaired 400 s true in
+                   ok = true /\ hquiescentb hrepaired s1 = true /\ who_serves s1 = 2 /\
+                   match nth_error (insts s1) 0 with Some x1 => completed (i_sd x1) = true | None => False end)
+      | None => False
+      end
+  | None => False
+  end.
+Proof. vm_compute. repeat split. Qed.
+(** a late waiter (hypotheses of [late_wait_resolves]): wait() called on the predecessor after it has finished *)
+Example ex_late_waiter :
+  let '(s0, _) := scenario hrepaired 2000 1 1 0 0 (hinit 1) true in
+  match hstep hrepaired s0 (HWaitNew 0) with
+  | Some s => match nth_error (insts s) 0 with
+              | Some x => finished (i_sd x) = true /\ nth_error (i_lw x) 0 = Some false /\ hstep hrepaired s (HWaitPoll 0 0) <> None
+              | None => False
+              end
+  | None => False
+  end.
+Proof. vm_compute. repeat split. discriminate. Qed.
